@@ -120,7 +120,7 @@ void splBin(const json &in, json &out) {
   const Grid<T> &ga = *gap;
   const bool share = in.value("share", 0) != 0;
   // share = 0: b lives on its own Grid instance (in threaded mode equal grids are one shared instance)
-  const auto gbp = (share || opCache().mode != 0) ? (share ? gap : opGrid<T>(jb.at("g")))
+  const auto gbp = (share || opCache().mode != 0) ? (share ? gap : opGrid<T>(jb.at("g"), 1))
                                                   : std::shared_ptr<const Grid<T>>(new Grid<T>(decVec<T>(jb.at("g"))));
   const Grid<T> &gb = *gbp;
   withOrder(ja.at("o").get<size_t>(), [&](auto OA) {
@@ -128,7 +128,7 @@ void splBin(const json &in, json &out) {
       constexpr size_t oa = decltype(OA)::value, ob = decltype(OB)::value;
       if constexpr (oa <= OPMAX && ob <= OPMAX) {
         const auto ap = opSpline<T, oa>(ja, ga);
-        const auto bp = opSpline<T, ob>(jb, gb);
+        const auto bp = opSpline<T, ob>(jb, gb, share ? 0 : 1);
         const Spline<T, oa> &a = *ap;
         const Spline<T, ob> &b = *bp;
         out["a"] = projSpline(a);
